@@ -50,7 +50,9 @@ def config_grid(K, tier):
     N = 2 ** K
     mins = [0, 4, 6, 8, 16] if tier == "quick" else [0, 4, 5, 6, 8, 12, 16, 4 * N]
     maxs = [0, 4, 20, 4 * N] if tier == "quick" else [0, 3, 4, 8, 20, 32, 2 * N, 4 * N, 16 * N]
-    return [(m, M) for m in mins for M in maxs]
+    # a maximum below one model unit without a minimum >= one unit makes the real class take steps of a fraction of a
+    # unit (it resolves 2^-63 of the interval): such runs leave the model line (same reason as for the requests above)
+    return [(m, M) for m in mins for M in maxs if not (0 < M < 4 and m < 4)]
 
 
 def run(c):
